@@ -443,7 +443,12 @@ class FnDep:
         """(param, path) if the function returns (a reference to / a copy of) exactly that part of a parameter
         on its only returning path (accessor functions)."""
         ds = self.defs.get(0, [])
-        if len(ds) != 1 or not self.body.local_ty(0).startswith('&'):
+        rty = self.body.local_ty(0)
+        wrapped = rty.startswith(('std::result::Result<&', 'std::option::Option<&'))
+        if wrapped:
+            # ignore the failure arms (`Err(..)` / `None`)
+            ds = [d for d in ds if not (d[0] == 'assign' and d[2]['rv']['k'] == 'agg' and d[2]['rv'].get('variant') in ('Err', 'None'))]
+        if len(ds) != 1 or not (rty.startswith('&') or wrapped):
             return None
         kind, bi, x = ds[0]
         if kind != 'assign' or x['dst'].get('p'):
@@ -454,6 +459,8 @@ class FnDep:
             src = rv['op']['pl']
         elif rv['k'] == 'ref':
             src = rv['pl']
+        elif wrapped and rv['k'] == 'agg' and rv.get('variant') in ('Ok', 'Some') and len(rv['ops']) == 1 and rv['ops'][0]['k'] in ('copy', 'move'):
+            src = rv['ops'][0]['pl']
         if src is None or any(p['k'] == 'index' for p in src.get('p', [])):
             return None
         root, path = self.resolve_place(src)
